@@ -43,7 +43,14 @@ ALGORITHMIC = {
     'start_resolution_algorithm', 'prove_tautology',
 }
 SOURCES = [('Propositional', 'proofs/propositional.py', None),
-           ('Tautology', 'tautology.py', 'Propositional')]
+           ('Tautology', 'tautology.py', 'Propositional'),
+           ('Substitution', 'proofs/substitution.py', None),
+           ('SmallTheory', 'proofs/small_theory.py', None)]
+# rule-library files without any lemma method (reported in the index; nothing to translate)
+NO_METHOD_FILES = [('KoreLemmas', 'proofs/kore.py'), ('Definedness', 'proofs/definedness.py')]
+MODULE_OF = {'proofs/propositional.py': 'proof_generation.proofs.propositional', 'tautology.py': 'proof_generation.tautology',
+             'proofs/substitution.py': 'proof_generation.proofs.substitution',
+             'proofs/small_theory.py': 'proof_generation.proofs.small_theory'}
 
 NOTATION_CTORS = {'Implies': ('Imp', 2), 'neg': ('p_neg', 1), 'bot': ('p_bot', 0), 'top': ('p_top', 0),
                   '_and': ('p_and', 2), '_or': ('p_or', 2), 'equiv': ('p_equiv', 2)}
@@ -55,6 +62,7 @@ COQ_RESERVED = {'pat', 'thunk', 'conc', 'mp', 'fun', 'forall', 'exists', 'match'
                 'if', 'then', 'else', 'as', 'at', 'fix', 'cofix', 'return', 'Type', 'Prop', 'Set', 'using', 'where'}
 
 
+CTY = {'pat': 'pat', 'thunk': 'thunk', 'evar': 'N'}
 # (python name, parameter types, Gallina function, documented rule)
 PRIMITIVES = [('modus_ponens', ['thunk', 'thunk'], 'mp', 'p -> q    p\n----------\nq'),
               # dynamic_inst(pf, delta): conclusion = pf.conc instantiated by delta (oracle: sequential instantiation)
@@ -86,6 +94,8 @@ class Method:
         self.binding = None
         self.prem_vars = None
         self.spec_kind = None  # 'docstring' | 'extra' | None
+        self.uses_gen = False
+        self.inst_params = set()   # ProofThunk parameters the method re-instantiates (dynamic_inst(h, <map>))
         self.where = f'{cls}.{self.name}'
 
     def parse_signature(self):
@@ -102,6 +112,8 @@ class Method:
                 ty = 'pat'
             elif ann == 'ProofThunk':
                 ty = 'thunk'
+            elif ann == 'EVar':
+                ty = 'evar'
             else:
                 raise Unsupported(self.where, arg, f'parameter type {ann!r} is outside the subset')
             dv = None
@@ -121,6 +133,68 @@ class Translator:
         self.methods = methods           # name -> Method (all classes; names are unique)
         self.class_parent = class_parent
         self.class_axioms = class_axioms  # cls -> coq name of its axiom list
+        self.submodules = {}              # cls -> {attribute: class of the imported module}
+        self.cls_file = {}                # cls -> source file (relative)
+        self.module_names = {}            # cls -> set of module-level assigned names
+        self.symbols = {}                 # Symbol name -> id used in the Coq model
+        self.repo_src = None
+        self._modules = {}
+
+    # ---- symbols and module-level pattern constants (by reflection: data, not code) ---------------
+    def sym_id(self, name):
+        if name not in self.symbols:
+            mo = re.fullmatch(r's(\d+)', name)
+            if mo and int(mo.group(1)) < 100:
+                self.symbols[name] = int(mo.group(1))
+            else:
+                self.symbols[name] = 100 + len([k for k in self.symbols if not re.fullmatch(r's(\d+)', k)])
+                if self.symbols[name] > 255:
+                    raise Unsupported('symbols', name, 'more than 156 named symbols')
+        return self.symbols[name]
+
+    def reflect(self, m, e):
+        """value of the module-level name `e.id` in the module of m's class, as a Gallina pattern literal"""
+        import importlib
+        modname = MODULE_OF[self.cls_file[m.cls]]
+        try:
+            if self.repo_src not in sys.path:
+                sys.path.insert(0, self.repo_src)
+            if modname not in self._modules:
+                self._modules[modname] = importlib.import_module(modname)
+            obj = getattr(self._modules[modname], e.id)
+            from proof_generation import pattern as P
+        except Exception as ex:  # noqa: BLE001
+            raise Unsupported(m.where, e, f'module-level name cannot be evaluated ({type(ex).__name__}: {ex})')
+        if not isinstance(obj, P.Pattern):
+            raise Unsupported(m.where, e, 'module-level name is not a Pattern')
+
+        def go(p):
+            while isinstance(p, P.Instantiate):
+                p = p.simplify()
+            if isinstance(p, P.EVar):
+                return f'(EVar {p.name})'
+            if isinstance(p, P.SVar):
+                return f'(SVar {p.name})'
+            if isinstance(p, P.Symbol):
+                return f'(Sym {self.sym_id(p.name)})'
+            if isinstance(p, P.Implies):
+                return f'(Imp {go(p.left)} {go(p.right)})'
+            if isinstance(p, P.App):
+                return f'(App {go(p.left)} {go(p.right)})'
+            if isinstance(p, P.Exists):
+                return f'(Ex {p.var} {go(p.subpattern)})'
+            if isinstance(p, P.Mu):
+                return f'(Mu {p.var} {go(p.subpattern)})'
+            if isinstance(p, P.MetaVar):
+                ls = ' '.join('[' + '; '.join(str(x.name) for x in l) + ']'
+                              for l in (p.e_fresh, p.s_fresh, p.positive, p.negative, p.app_ctx_holes))
+                return f'(MVar {p.name} {ls})'
+            if isinstance(p, P.ESubst):
+                return f'(ESub {go(p.pattern)} {p.var.name} {go(p.plug)})'
+            if isinstance(p, P.SSubst):
+                return f'(SSub {go(p.pattern)} {p.var.name} {go(p.plug)})'
+            raise Unsupported(m.where, e, f'pattern node {type(p).__name__}')
+        return go(obj)
 
     # ---- expressions ---------------------------------------------------------------------------
     def pat_expr(self, m, e, env, hoist):
@@ -132,6 +206,8 @@ class Translator:
                 return v(e.id)
             if e.id in PHI:
                 return f'(phi {PHI[e.id]})'
+            if e.id in self.module_names.get(m.cls, ()):
+                return self.reflect(m, e)
             raise Unsupported(m.where, e, 'unknown name in pattern position')
         if isinstance(e, ast.Attribute) and e.attr == 'conc':
             t = self.thunk_expr(m, e.value, env, hoist)
@@ -152,6 +228,19 @@ class Translator:
             if f == 'MetaVar' and len(e.args) == 1 and isinstance(e.args[0], ast.Constant) \
                     and isinstance(e.args[0].value, int) and 0 <= e.args[0].value < 256:
                 return f'(phi {e.args[0].value})'
+
+            def lit(a, what):
+                if isinstance(a, ast.Constant) and isinstance(a.value, int) and not isinstance(a.value, bool) and 0 <= a.value < 256:
+                    return a.value
+                raise Unsupported(m.where, e, f'{what} is not a literal id')
+            if f in ('EVar', 'SVar') and len(e.args) == 1:
+                return f'({f} {lit(e.args[0], f)})'
+            if f == 'Symbol' and len(e.args) == 1 and isinstance(e.args[0], ast.Constant) and isinstance(e.args[0].value, str):
+                return f'(Sym {self.sym_id(e.args[0].value)})'
+            if f == 'App' and len(e.args) == 2:
+                return '(App ' + ' '.join(self.pat_expr(m, a, env, hoist) for a in e.args) + ')'
+            if f in ('Exists', 'Mu') and len(e.args) == 2:
+                return f"({'Ex' if f == 'Exists' else 'Mu'} {lit(e.args[0], f)} {self.pat_expr(m, e.args[1], env, hoist)})"
         raise Unsupported(m.where, e, 'pattern expression outside the subset')
 
     def subst_expr(self, m, e, env, hoist):
@@ -163,13 +252,42 @@ class Translator:
             return '(build_subst [' + '; '.join(items) + '])'
         raise Unsupported(m.where, e, 'instantiation map outside the subset')
 
+    def evar_expr(self, m, e, env):
+        """an `EVar`-typed argument -> Gallina N (the variable's id)"""
+        if isinstance(e, ast.Name) and env.get(e.id) == 'evar':
+            return v(e.id)
+        if isinstance(e, ast.Call) and isinstance(e.func, ast.Name) and e.func.id == 'EVar' and len(e.args) == 1 \
+                and not e.keywords and isinstance(e.args[0], ast.Constant) and isinstance(e.args[0].value, int) \
+                and not isinstance(e.args[0].value, bool) and 0 <= e.args[0].value < 256:
+            return str(e.args[0].value)
+        raise Unsupported(m.where, e, 'element-variable argument outside the subset')
+
+    def owner_class(self, m, recv):
+        """class whose method is called through receiver `self` / `self.<imported module>`"""
+        if isinstance(recv, ast.Name) and recv.id == 'self':
+            return m.cls
+        if isinstance(recv, ast.Attribute) and isinstance(recv.value, ast.Name) and recv.value.id == 'self' \
+                and recv.attr in self.submodules.get(m.cls, {}):
+            return self.submodules[m.cls][recv.attr]
+        return None
+
+    def class_has(self, cls, f):
+        while cls is not None:
+            if f in self.methods and self.methods[f].cls == cls:
+                return True
+            cls = self.class_parent.get(cls)
+        return False
+
     def thunk_expr(self, m, e, env, hoist):
         if isinstance(e, ast.Name):
             if env.get(e.id) == 'thunk':
                 return v(e.id)
             raise Unsupported(m.where, e, f'`{e.id}` is not a ProofThunk here')
-        if isinstance(e, ast.Call) and isinstance(e.func, ast.Attribute) \
-                and isinstance(e.func.value, ast.Name) and e.func.value.id == 'self':
+        if isinstance(e, ast.Call) and isinstance(e.func, ast.Attribute):
+            owner = self.owner_class(m, e.func.value)
+            if owner is None:
+                raise Unsupported(m.where, e, 'call receiver is neither self nor an imported module of self')
+            via_self = owner == m.cls and isinstance(e.func.value, ast.Name)
             f = e.func.attr
             if e.keywords:
                 raise Unsupported(m.where, e, 'keyword arguments')
@@ -181,16 +299,39 @@ class Translator:
                 if len(e.args) != 2:
                     raise Unsupported(m.where, e, 'modus_ponens takes 2 arguments')
                 return '(mp ' + ' '.join(self.thunk_expr(m, a, env, hoist) for a in e.args) + ')'
+            if f == 'exists_generalization':
+                if len(e.args) != 2:
+                    raise Unsupported(m.where, e, 'exists_generalization takes 2 arguments')
+                m.uses_gen = True
+                return f'(gen {self.thunk_expr(m, e.args[0], env, hoist)} {self.evar_expr(m, e.args[1], env)})'
             if f == 'dynamic_inst':
                 if len(e.args) != 2:
                     raise Unsupported(m.where, e, 'dynamic_inst takes 2 arguments')
+                if isinstance(e.args[0], ast.Name) and env.get(e.args[0].id) == 'thunk' \
+                        and any(pn == e.args[0].id and pt == 'thunk' for pn, pt, _ in m.params):
+                    m.inst_params.add(e.args[0].id)
+                elif not (isinstance(e.args[1], ast.Call) and isinstance(e.args[1].func, ast.Name)
+                          and e.args[1].func.id == '_build_subst'):
+                    raise Unsupported(m.where, e, 'dynamic_inst of a computed proof with a computed map')
                 return f'(dynamic_inst {self.thunk_expr(m, e.args[0], env, hoist)} {self.subst_expr(m, e.args[1], env, hoist)})'
             if f == 'load_axiom_by_index':
+                if not via_self:
+                    raise Unsupported(m.where, e, 'axiom of an imported module loaded')
                 if len(e.args) != 1 or not isinstance(e.args[0], ast.Constant) or not isinstance(e.args[0].value, int) \
                         or not 0 <= e.args[0].value < 1000:
                     raise Unsupported(m.where, e, 'load_axiom_by_index needs a literal index')
                 return f'(load_ax_by_index {self.class_axioms[m.cls]} {e.args[0].value})'
+            if f == 'load_axiom':
+                if not via_self or len(e.args) != 1:
+                    raise Unsupported(m.where, e, 'load_axiom outside the subset')
+                h2 = []
+                a = self.pat_expr(m, e.args[0], env, h2)
+                if h2:
+                    raise Unsupported(m.where, e, 'load_axiom of a conclusion')
+                return f'(load_ax {self.class_axioms[m.cls]} {a})'
             if f in self.methods:
+                if not self.class_has(owner, f):
+                    raise Unsupported(m.where, e, f'{f} is not a method of {owner}')
                 callee = self.methods[f]
                 if callee.body_coq is None and f in ALGORITHMIC:
                     raise Unsupported(m.where, e, f'call of the algorithmic method {f}')
@@ -202,13 +343,14 @@ class Translator:
                 for i, (pn, pt, pd) in enumerate(callee.params):
                     if i < len(e.args):
                         a = e.args[i]
-                        out.append(self.pat_expr(m, a, env, hoist) if pt == 'pat' else self.thunk_expr(m, a, env, hoist))
+                        out.append(self.pat_expr(m, a, env, hoist) if pt == 'pat' else
+                                   self.evar_expr(m, a, env) if pt == 'evar' else self.thunk_expr(m, a, env, hoist))
                     elif pd is not None:
                         out.append(f'(phi {pd})')
                     else:
                         raise Unsupported(m.where, e, f'missing argument {pn} without default')
                 return '(' + ' '.join([f] + out) + ')' if out else f
-            raise Unsupported(m.where, e, f'unknown method self.{f}')
+            raise Unsupported(m.where, e, f'unknown method {ast.unparse(e.func)}')
         raise Unsupported(m.where, e, 'proof expression outside the subset')
 
     # ---- statements ----------------------------------------------------------------------------
@@ -388,10 +530,11 @@ def read_extra(extra_path):
     try:
         src = open(extra_path).read()
     except FileNotFoundError:
-        return set(), set()
+        return set(), set(), set()
     stmts = set(re.findall(r'^\s*Definition\s+(\w+)_stmt\b', src, re.M))
     tacs = set(re.findall(r'^\s*Ltac\s+(\w+)_proof\b', src, re.M))
-    return stmts, tacs
+    wf_tacs = {t[:-3] for t in tacs if t.endswith('_wf')}
+    return stmts, tacs - {t for t in tacs if t.endswith('_wf')}, wf_tacs
 
 
 def class_axioms(cls, node, tr_dummy, where):
@@ -401,7 +544,15 @@ def class_axioms(cls, node, tr_dummy, where):
     init = next((n for n in node.body if isinstance(n, ast.FunctionDef) and n.name == '__init__'), None)
     if init is None:
         return out, True
+    local = {}
+    for s in init.body:
+        if isinstance(s, ast.Assign) and len(s.targets) == 1 and isinstance(s.targets[0], ast.Name):
+            local[s.targets[0].id] = s.value
     for s in ast.walk(init):
+        if isinstance(s, ast.Assign) and len(s.targets) == 1 and ast.unparse(s.targets[0]) == 'self._axioms':
+            if not isinstance(s.value, ast.List) or out:
+                raise Unsupported(where, s, '`self._axioms = ...` is not a single list literal')
+            out += [local.get(e.id, e) if isinstance(e, ast.Name) else e for e in s.value.elts]
         if isinstance(s, ast.Call) and isinstance(s.func, ast.Attribute) and s.func.attr == '__init__':
             for kw in s.keywords:
                 if kw.arg == 'axioms':
@@ -427,6 +578,7 @@ def translate(repo_src, extra_path):
     """-> ((definitions text, specs text), index dict).  Raises Unsupported (fail closed)."""
     methods, order = {}, []
     class_parent, cls_nodes, cls_src = {}, {}, {}
+    cls_file, module_names, submodules = {}, {}, {}
     for cls, rel, parent in SOURCES:
         path = os.path.join(repo_src, 'proof_generation', rel)
         text = open(path).read()
@@ -440,6 +592,19 @@ def translate(repo_src, extra_path):
             raise Unsupported(cls, node, f'bases {bases} (expected [{exp}])')
         class_parent[cls] = parent
         cls_nodes[cls], cls_src[cls] = node, text
+        cls_file[cls] = rel
+        module_names[cls] = {t.id for st in tree.body if isinstance(st, ast.Assign) for t in st.targets if isinstance(t, ast.Name)}
+        submodules[cls] = {}
+        init = next((n for n in node.body if isinstance(n, ast.FunctionDef) and n.name == '__init__'), None)
+        for st in (ast.walk(init) if init is not None else []):
+            # self.<attr> = self.import_module(<Class>())
+            if isinstance(st, ast.Assign) and len(st.targets) == 1 and isinstance(st.targets[0], ast.Attribute) \
+                    and isinstance(st.targets[0].value, ast.Name) and st.targets[0].value.id == 'self' \
+                    and isinstance(st.value, ast.Call) and ast.unparse(st.value.func) == 'self.import_module':
+                a = st.value.args[0] if len(st.value.args) == 1 else None
+                if not (isinstance(a, ast.Call) and isinstance(a.func, ast.Name) and not a.args and not a.keywords):
+                    raise Unsupported(f'{cls}.__init__', st, 'import_module argument is not `Class()`')
+                submodules[cls][st.targets[0].attr] = a.func.id
         for n in node.body:
             if isinstance(n, ast.FunctionDef):
                 if n.decorator_list:
@@ -473,6 +638,11 @@ def translate(repo_src, extra_path):
     # class axioms
     class_ax_name = {}
     tr = Translator(methods, class_parent, class_ax_name)
+    tr.submodules, tr.cls_file, tr.module_names, tr.repo_src = submodules, cls_file, module_names, repo_src
+    for cls in submodules:
+        for attr, target in submodules[cls].items():
+            if target not in class_parent:
+                raise Unsupported(f'{cls}.__init__', cls_nodes[cls], f'imported module {target} is not a translated class')
     ax_defs = []
     for cls, _, parent in SOURCES:
         elts, _inh = class_axioms(cls, cls_nodes[cls], tr, cls)
@@ -516,8 +686,10 @@ def translate(repo_src, extra_path):
 
     for n in translated:
         visit(n, [])
+    for n in out_order:
+        methods[n].uses_gen = methods[n].uses_gen or any(methods[c].uses_gen for c in methods[n].calls)
 
-    extra_stmts, extra_tacs = read_extra(extra_path)
+    extra_stmts, extra_tacs, extra_wf_tacs = read_extra(extra_path)
 
     # schemas
     for n in out_order:
@@ -556,12 +728,15 @@ def translate(repo_src, extra_path):
         if par:
             o.append(f'Lemma {nm}_parent : forall axs, ax_incl {nm} axs -> ax_incl {class_ax_name[par]} axs.\n'
                      f'Proof. intros axs H. eapply ax_incl_app_l. exact H. Qed.\n'
-                     f'#[global] Hint Resolve {nm}_parent : plwf.\n')
+                     f'#[global] Hint Resolve {nm}_parent : plwf.\n#[global] Hint Resolve {nm}_parent : plgok.\n')
+        if k == 0 and not par:
+            o.append(f'Lemma {nm}_any : forall axs, ax_incl {nm} axs.\nProof. intros axs x H. discriminate. Qed.\n'
+                     f'#[global] Hint Resolve {nm}_any : plwf.\n#[global] Hint Resolve {nm}_any : plgok.\n')
     spec_names, wf_names, unspecified = [], [], []
-    sok_names, replay_names = [], []
+    gok_names, replay_names = [], []
     for n in out_order:
         m = methods[n]
-        params = ' '.join(f'({v(pn)} : {pt})' for pn, pt, _ in m.params)
+        params = ' '.join(f'({v(pn)} : {CTY[pt]})' for pn, pt, _ in m.params)
         d.append(f'(** {m.where}  (source sha256/16 {m.sha}) *)')
         d.append(f'Definition {n} {params} : thunk :=\n    {m.body_coq}.\n'.replace(f'{n}  :', f'{n} :'))
         o.append(f'(** {m.where} *)')
@@ -574,7 +749,7 @@ def translate(repo_src, extra_path):
 
             def var(x, m=m):
                 return v(m.binding[x]) if x in m.binding else 's_' + x
-            qs = ' '.join(f'({v(pn)} : {pt})' for pn, pt, _ in m.params)
+            qs = ' '.join(f'({v(pn)} : {CTY[pt]})' for pn, pt, _ in m.params)
             svars = ' '.join('s_' + x for x in m.prem_vars)
             binder = 'forall ' + qs + (f' ({svars} : pat)' if svars else '') + ', ' if (qs or svars) else ''
             hyps = ''.join(f'conc {v(t)} = Some {S.to_coq(p, var)} ->\n    ' for t, p in zip(thunks, sch['premises']))
@@ -591,43 +766,48 @@ def translate(repo_src, extra_path):
                 o.append(f'Proof. unfold {n}_stmt. {n}_proof {n}. Qed.')
             else:
                 o.append(f'Proof. unfold {n}_stmt. lib_spec {n}. Qed.')
-            o.append(f'#[global] Hint Resolve {n}_spec : pl.')
+            o.append(f'Definition {n}_spec_u := ltac:(let t := eval unfold {n}_stmt in ({n}_stmt {n}) in exact ({n}_spec : t)).')
+            o.append(f'#[global] Hint Resolve {n}_spec_u : pl.')
             spec_names.append(f'{n}_spec')
         else:
             unspecified.append(n)
             o.append(f'(* no schema: docstring is not a schema and Lib/Extra.v has no {n}_stmt *)')
             o.append(f'#[global] Hint Unfold {n} : plunf.')
-        # wf
-        qs = ' '.join(f'({v(pn)} : {pt})' for pn, pt, _ in m.params)
-        hy = ''.join(f'owf axs {v(t)} -> ' for t in thunks)
-        o.append(f'Lemma {n}_wf :\n  forall (axs : list pat) {qs}, ax_incl {class_ax_name[m.cls]} axs -> '
-                 f'{hy}owf axs {call}.')
-        o.append(f'Proof. lib_wf {n}. Qed.')
+        # wf (g: is Generalization allowed when the stored conclusion is re-checked)
+        qs = ' '.join(f'({v(pn)} : {CTY[pt]})' for pn, pt, _ in m.params)
+        gflag = 'true' if m.uses_gen else 'g'
+        gbind = '' if m.uses_gen else '(g : bool) '
+        hy = ''.join(f'owf {gflag} axs {v(t)} -> ' for t in thunks)
+        o.append(f'Lemma {n}_wf :\n  forall {gbind}(axs : list pat) {qs}, ax_incl {class_ax_name[m.cls]} axs -> '
+                 f'{hy}owf {gflag} axs {call}.')
+        o.append(f'Proof. {n}_wf_proof {n}. Qed.' if n in extra_wf_tacs else f'Proof. lib_wf {n}. Qed.')
         o.append(f'#[global] Hint Resolve {n}_wf : plwf.')
         wf_names.append(f'{n}_wf')
-        # sok: the returned term stays in C02's propositional fragment; replays: compiled bytes execute
-        pats_ok = ''.join(f'pok {v(pn)} = true -> ' for pn, pt, _ in m.params if pt == 'pat')
-        hy_sok = ''.join(f'sok {v(t)} -> ' for t in thunks)
-        o.append(f'Lemma {n}_sok :\n  forall {qs}, {pats_ok}{hy_sok}sok {call}.' if qs else f'Lemma {n}_sok : sok {call}.')
-        o.append(f'Proof. lib_sok {n}. Qed.')
-        o.append(f'#[global] Hint Resolve {n}_sok : plsok.')
-        sok_names.append(f'{n}_sok')
+        # gok: the returned thunk meets C02's checker-side conditions; replays: compiled bytes execute
         incl = f'ax_incl {class_ax_name[m.cls]} axs -> '
+        pats_ok = ''.join(f'pwf {v(pn)} = true -> ' for pn, pt, _ in m.params if pt == 'pat')
+
+        def gokh(t, m=m):
+            return f'gok axs {v(t)} -> ' + (f'csimple {v(t)} -> ' if t in m.inst_params else '')
+        hy_gok = ''.join(gokh(t) for t in thunks)
+        o.append(f'Lemma {n}_gok :\n  forall (axs : list pat) {qs}, {incl}{pats_ok}{hy_gok}gok axs {call}.')
+        o.append(f'Proof. lib_gok {n}. Qed.')
+        o.append(f'#[global] Hint Resolve {n}_gok : plgok.')
+        gok_names.append(f'{n}_gok')
         if m.spec_kind == 'docstring':
             def var2(x, m=m):
                 return v(m.binding[x]) if x in m.binding else 's_' + x
             svars = ' '.join('s_' + x for x in m.prem_vars)
-            hyps = ''.join(f'conc {v(t)} = Some {S.to_coq(p_, var2)} -> owf axs {v(t)} -> sok {v(t)} ->\n    '
+            hyps = ''.join(f'conc {v(t)} = Some {S.to_coq(p_, var2)} -> {gokh(t)}\n    '
                            for t, p_ in zip(thunks, m.schema['premises']))
             o.append(f'Lemma {n}_replays :\n  forall (axs : list pat) {qs}' + (f' ({svars} : pat)' if svars else '') +
                      f', {incl}{pats_ok}\n    {hyps}compiles_to axs {call} {S.to_coq(m.schema["conclusions"][0], var2)}.')
-            o.append(f'Proof. lib_replays {n}_spec {n}_wf {n}_sok. Qed.')
+            o.append(f'Proof. lib_replays {n}_spec {n}_gok. Qed.')
             replay_names.append(f'{n}_replays')
         elif m.spec_kind == 'extra':
-            hyps = ''.join(f'owf axs {v(t)} -> sok {v(t)} -> ' for t in thunks)
-            o.append(f'Lemma {n}_replays :\n  forall (axs : list pat) {qs} (s : pat), {incl}{pats_ok}{hyps}\n    '
+            o.append(f'Lemma {n}_replays :\n  forall (axs : list pat) {qs} (s : pat), {incl}{pats_ok}{hy_gok}\n    '
                      f'conc {call} = Some s -> compiles_to axs {call} s.')
-            o.append(f'Proof. lib_replays {n}_spec {n}_wf {n}_sok. Qed.')
+            o.append(f'Proof. lib_replays {n}_spec {n}_gok. Qed.')
             replay_names.append(f'{n}_replays')
         if m.spec_kind is not None:
             o.append(f'Global Opaque {n}.')
@@ -655,12 +835,12 @@ def translate(repo_src, extra_path):
 
     # dispatcher for the extracted model (harness requests entry points by index)
     d.append('(** dispatcher for the extracted model: entry point by index *)')
-    d.append('Inductive arg := APat (p : pat) | AThunk (t : thunk) | ASubst (d : list (N * pat)).')
+    d.append('Inductive arg := APat (p : pat) | AThunk (t : thunk) | ASubst (d : list (N * pat)) | AVar (x : N).')
     d.append('Definition dispatch (i : N) (args : list arg) : option thunk :=\n  match i, args with')
     index = []
     for k, n in enumerate(out_order):
         m = methods[n]
-        pats = '; '.join((f'APat {v(pn)}' if pt == 'pat' else f'AThunk {v(pn)}') for pn, pt, _ in m.params)
+        pats = '; '.join(({'pat': 'APat', 'thunk': 'AThunk', 'evar': 'AVar'}[pt] + ' ' + v(pn)) for pn, pt, _ in m.params)
         args = ' '.join(v(pn) for pn, _, _ in m.params)
         d.append(f'  | {k}, [{pats}] => Some ({n} {args})'.replace(f'({n} )', n))
         sch = None
@@ -687,12 +867,31 @@ def translate(repo_src, extra_path):
                           schema=schd, spec='primitive', sha=None, calls=[], doc=doc))
     d.append('  | _, _ => None\n  end.')
     d.append(f'Definition n_entry_points : N := {len(out_order)}.')
+    d.append('(** all assumptions the translated classes declare (memory of the replay in the correspondence check) *)')
+    d.append('Definition all_class_axioms : list pat := ' + ' ++ '.join(nm for cls, nm, _, _ in ax_defs if class_parent[cls] is None or True) + '.')
+    # per-file coverage
+    per_file = {}
+    for cls, rel, _ in SOURCES:
+        names = [n for n in order if methods[n].cls == cls]
+        per_file[rel] = dict(cls=cls, methods=len(names), translated=len([n for n in names if n not in ALGORITHMIC]),
+                             proved=len([n for n in names if n not in ALGORITHMIC and methods[n].spec_kind is not None]),
+                             algorithmic=[n for n in names if n in ALGORITHMIC])
+    for cls, rel in NO_METHOD_FILES:
+        try:
+            t2 = ast.parse(open(os.path.join(repo_src, 'proof_generation', rel)).read())
+            node2 = next((n_ for n_ in t2.body if isinstance(n_, ast.ClassDef) and n_.name == cls), None)
+            ms = [n_.name for n_ in (node2.body if node2 else []) if isinstance(n_, ast.FunctionDef) and n_.name != '__init__']
+        except OSError:
+            ms = None
+        if ms:
+            raise Unsupported(rel, node2, f'class {cls} now has lemma methods {ms}: add it to SOURCES')
+        per_file[rel] = dict(cls=cls, methods=0, translated=0, proved=0, algorithmic=[])
     text = ('\n'.join(d) + '\n', '\n'.join(o) + '\n')
     idx = dict(methods=index, excluded=sorted(n for n in order if n in ALGORITHMIC),
                excluded_sha={n: methods[n].sha for n in order if n in ALGORITHMIC},
                unspecified=unspecified,
                axioms={cls: dict(name=nm, count=k) for cls, nm, _, k in ax_defs},
-               n_methods_total=len(order))
+               n_methods_total=len(order), per_file=per_file, symbols=tr.symbols)
     return text, idx
 
 
